@@ -8,12 +8,11 @@
  *   g_c11_cl_value   what htp_parse_content_length(C-L value) answers (any int64)
  *   g_c11_hp_*       what htp_parse_header_hostport(Host value) answers: rc, hostname != NULL, invalid bit, port
  *   g_c11_host_cmp   what bstr_cmp_nocase(Host hostname, URI hostname) answers
- *   g_c11_dup_fail   bstr_dup fails;  g_c11_dec_fail  decompressor creation fails
  * Log ghosts (sticky flags, assigned by stubs; 0 on entry):
  *   g_c11_seen_cl    the "content-length" lookup happened (=> the whole T-E/C-L arbitration block runs)
  *   g_c11_seen_ct    the "content-type" lookup happened (=> the whole host block has run)
  * Producer unit (htp_process_request_header_generic):
- *   g_c11_ex         the header htp_table_get answers (NULL = first occurrence)
+ *   g_c11_ex         the header already stored under the same name; htp_table_get answers it iff g_c11_have_ex (else NULL = first occurrence)
  *   g_c11_isclen     bstr_cmp_c_nocase(name, "Content-Length") answer
  *   g_c11_newlen     length of the freshly parsed value;  g_c11_name / g_c11_value / g_c11_h the parsed header's parts
  *   g_c11_free_name / g_c11_free_value   sticky: bstr_free was called on the parsed name / value
@@ -27,14 +26,17 @@
     X(void *, g_c11_hdr_cl) X(void *, g_c11_hdr_te) X(void *, g_c11_hdr_host) X(void *, g_c11_hdr_ct) X(void *, g_c11_hdr_ce) \
     X(int, g_c11_te_chunked) X(int64_t, g_c11_cl_value) \
     X(int, g_c11_hp_rc) X(int, g_c11_hp_valid) X(int, g_c11_hp_invalid) X(int, g_c11_hp_port) X(int, g_c11_host_cmp) \
-    X(int, g_c11_dup_fail) X(int, g_c11_dec_fail) X(int, g_c11_seen_cl) X(int, g_c11_seen_ct) \
-    X(void *, g_c11_ex) X(int, g_c11_isclen) X(size_t, g_c11_newlen) X(void *, g_c11_name) X(void *, g_c11_value) X(void *, g_c11_h) \
+    X(int, g_c11_seen_cl) X(int, g_c11_seen_ct) \
+    X(void *, g_c11_ex) X(int, g_c11_have_ex) X(int, g_c11_isclen) X(size_t, g_c11_newlen) X(void *, g_c11_name) X(void *, g_c11_value) X(void *, g_c11_h) \
     X(int, g_c11_parse_rc) X(int, g_c11_free_name) X(int, g_c11_free_value) X(int, g_c11_add_n) X(int, g_c11_add_rc) X(const void *, g_c11_add_el) X(const void *, g_c11_add_key) \
     X(int, g_c11_exp_n) X(int, g_c11_exp_fail) X(size_t, g_c11_exp_req) X(int, g_c11_addmem_n) X(int, g_c11_addb_n) X(unsigned char, g_c11_sep0) X(unsigned char, g_c11_sep1) X(const void *, g_c11_addb_src)
 /* capacity of the header values handed to the (replaced) value parsers */
 #ifndef C11_VALCAP
 #define C11_VALCAP 32
 #endif
+/* label characters htp_validate_hostname documents: letters, digits, '-' and (relaxed) '_'.  One table read per use (HOWTO 4). */
+static const unsigned char c11_hostch[256] = {0,0,0,0,0,0,0,0,0,0,0,0,0,0,0,0,0,0,0,0,0,0,0,0,0,0,0,0,0,0,0,0,0,0,0,0,0,0,0,0,0,0,0,0,0,1,0,0,1,1,1,1,1,1,1,1,1,1,0,0,0,0,0,0,0,1,1,1,1,1,1,1,1,1,1,1,1,1,1,1,1,1,1,1,1,1,1,1,1,1,1,0,0,0,0,1,0,1,1,1,1,1,1,1,1,1,1,1,1,1,1,1,1,1,1,1,1,1,1,1,1,1,1,0,0,0,0,0,0,0,0,0,0,0,0,0,0,0,0,0,0,0,0,0,0,0,0,0,0,0,0,0,0,0,0,0,0,0,0,0,0,0,0,0,0,0,0,0,0,0,0,0,0,0,0,0,0,0,0,0,0,0,0,0,0,0,0,0,0,0,0,0,0,0,0,0,0,0,0,0,0,0,0,0,0,0,0,0,0,0,0,0,0,0,0,0,0,0,0,0,0,0,0,0,0,0,0,0,0,0,0,0,0,0,0,0,0,0,0,0,0,0,0,0,0,0,0,0,0,0,0,0,0,0,0,0};
+#define C11_HOSTCH(c) (c11_hostch[(unsigned char)(c)])
 /* white space of a header-value token list as libhtp documents it for htp_is_space: SP HT LF VT FF CR */
 #define C11_ISSPACE(c) ((c) == 0x20 || ((c) >= 0x09 && (c) <= 0x0d))
 #endif
